@@ -58,6 +58,8 @@ class CGen:
         if k == 2:
             return f"PRINT {r.choice('ABCN')}*2"
         if k == 3:
+            if r.randrange(3) == 0:      # every spelling of a number, also right in front of ELSE / ':'
+                return f"{r.choice('ABCN')}={r.choice(['2.5', '.5', '1.5', '2.', '1E1', '1.5E1', '-0.5', '25'])}"
             return f"{r.choice('ABCN')}={r.randrange(0, 4)}"
         if k == 4:
             return f"PRINT \"{r.choice(['X', 'Y', 'Z'])}\""
@@ -148,6 +150,9 @@ class CGen:
 
 
 PROBES = [
+    "10 IF A=1 THEN B=2.5 ELSE B=3\n20 PRINT B",
+    "10 IF A=1 THEN B=.5ELSE B=1E1\n20 PRINT B",
+    "10 IF A=1 THEN B=2. ELSE IF A=2 THEN B=1.5E1 ELSE 30\n20 PRINT B\n30 PRINT \"Z\"",
     "10 IF A=1 THEN 30:PRINT \"X\"\n20 PRINT \"Y\"\n30 PRINT \"Z\"",
     "10 IF A=1 THEN PRINT \"P\" ELSE 30:PRINT \"X\"\n20 PRINT \"Y\"\n30 PRINT \"Z\"",
     "10 IF A=1 THEN PRINT \"ONE\" ELSE IF A=2 THEN PRINT \"TWO\"\n20 PRINT \"AFTER\"",
@@ -233,7 +238,10 @@ def traces(case, out_text, env):
 
 def oracle(case, impl):
     if not impl.startswith("ok "):
-        return None
+        # every generated program and every probe lies inside the property's fragment (unique ascending
+        # line numbers, existing targets, lexically nested loops): there must be a translated program
+        note("ctl: refused")
+        return f"the tool refuses a program of the control-flow fragment ({impl[:60]})"
     out = unhex(impl[3:]).decode()
     for n, env in enumerate([{}]):
         try:
